@@ -27,6 +27,7 @@ func runC09(c *core.Ctx) {
 	c.Clause("C09.5 follower keeps a matching suffix, otherwise discards and restores")
 	h.installSnapshotHandler("C09.5 install-handler")
 	h.staleSnapshotIgnored("C09.6 stale-snapshot-ignored")
+	h.snapshotOrder("C09.7 snapshot-order")
 }
 
 func runC12(c *core.Ctx) {
@@ -37,6 +38,9 @@ func runC12(c *core.Ctx) {
 	h.installSnapshotHandler("C12.3 install-handler")
 	c.Clause("C12.4 restart takes the membership from the label only when the log holds no newer configuration entry")
 	h.openStorageRebuild("C12.4 restart-rebuild")
+	// the label of a taken snapshot is configs.Committed: it must follow every adopted configuration
+	h.adoptAndRevert("C12.5 adopt-revert")
+	h.configSetters("C12.5b config-setters")
 }
 
 func runC10(c *core.Ctx) {
